@@ -19,11 +19,22 @@
      the nick recorded in `c`'s connection record is free in the state the section runs in
      (`cornerFree`, a `Bool`, checked along the run).  For PASS / USER / CAP END a taken nick at A3 is
      not a corner and is NOT excluded.
-  2. THE COMMAND COUNTERS: way out (a).  `general_serialisable` is about the section lists WITHOUT
-     the `.count` sections (`splitCore`), and the sequential reference is the back-to-back run of
-     the cores (`seqStep cfg splitCore`, `seqRun cfg splitCore`); `seqStep_core_vs_whole` relates
-     the core to the whole command: `whole = core` for one-section commands and
-     `whole = count ; core` for the split ones (this is `split_is_sequential`).
+  2. THE COMMAND COUNTERS: BOTH ways out are proved, from one parametric proof (`split` = the
+     section-list function; only its shape `SplitShape` is used).
+     (a) `general_serialisable`: the section lists WITHOUT the `.count` sections (`splitCore`); the
+         sequential reference is the back-to-back run of the cores (`seqRun cfg splitCore`);
+         `seqStep_core_vs_whole` relates the core to the whole command (`whole = core` for
+         one-section commands, `whole = count ; core` for the split ones: `split_is_sequential`).
+         No hypothesis on the program lines.
+     (b) `general_serialisable_whole`: the FULL section lists of `splitCommand` (counter sections
+         included, executed when the command starts) against the sequential model proper,
+         `handleLine` folded over `cmds` (`seqWhole`).  Hypothesis on the program lines:
+         `BumpCommLine cfg c line` — the handler of the line commutes with
+         `command_counts[i].fetch_add(1)`; false for `STATS m`, true for every other command; proved
+         here for the lines of the registration path and some more (`bumpCommLine_registration`:
+         NICK, PASS, USER, CAP, PING, PONG, QUIT, AUTHENTICATE, unparsable lines), an explicit
+         hypothesis for the other handlers.  The sections of the registration path themselves
+         commute with the bumps (`bumpComm_reg`, proved).
   3. KILL / DIE / SQUIT are ALLOWED in the programs.  They are independent of a connection only
      where it owns no user; the proof carries "the sequential state satisfies `InvCore`" (the
      invariant of `Irc/Inv.lean`, preserved by every `handleLine`: `invCore_handleLine`) through the
@@ -32,16 +43,17 @@
      (it holds in every reachable world: `inv_reachable`).
   4. `.teardown` sections are not part of programs.
 
-  Proof (files `Irc/Props/C18GeneralLemmas0 … 7.lean`): refinement.  Invariant `SimW`: there is a
+  Proof (files `Irc/Props/C18GeneralLemmas0 … 8.lean`): refinement.  Invariant `SimW`: there is a
   base state `ρ` such that the interleaved state is `ρ` + the LOCAL updates (own record, own reply
-  buffer, own program counter) of the connections that are between A1 / prelude and A3, and the
-  sequential run of the commands serialised so far is `ρ` + the local updates of the connections
-  that are "behind" (NICK, nick free at A1, decision not "good": serialised at A1, its local A2
-  still to run).  Serialisation points: one-section command / PRIVMSG / NOTICE = its (first)
-  section; unregistered PASS / USER / CAP END = its `authCommit`; unregistered NICK = A1 if the
-  nick is taken at A1 or the decision is not "good", A3 otherwise.
+  buffer, own program counter; and the pending counter bump) of the connections that are between
+  their counter section / A1 / prelude and A3, and the sequential run of the commands serialised so
+  far is `ρ` + the local updates of the connections that are "behind" (NICK, nick free at A1,
+  decision not "good": serialised at A1, its local A2 still to run).  Serialisation points:
+  one-section command / PRIVMSG / NOTICE = its (first) section; unregistered PASS / USER / CAP END =
+  its `authCommit`; unregistered NICK = A1 if the nick is taken at A1 or the decision is not
+  "good", A3 otherwise.
 -/
-import Irc.Props.C18GeneralLemmas7
+import Irc.Props.C18GeneralLemmas8
 
 namespace Irc.C18
 
@@ -67,12 +79,39 @@ theorem general_serialisable_atomic (cfg : Cfg) (S₀ S : Sys) (sched : List Nat
 
 /-! ## the general theorem -/
 
-/-- **`general_serialisable`.**  `cs` lists the connections that take part (all others have an
-    empty program).  Initially: every participant is live, the world satisfies `InvCore` (true in
-    every reachable world), every task is between two commands (`pc = idle`, nothing pending).
-    For EVERY schedule `sched` that can be run (`runSched … = some S`), that never hits the corner
-    (`noCorner`) and after which no command is in progress (`S.pend c = []` for all `c ∈ cs`), there is a
-    list `cmds` of whole commands such that
+/-- the parametric form: any section-list function of the shape of `splitCommand` / `splitCore`;
+    the program lines commute with the counter bumps, or there are no counter sections -/
+theorem general_serialisable_split (cfg : Cfg) (split : Bool → Nat → Str → List Section)
+    (hsh : SplitShape split) (cs : List Nat) (S₀ S : Sys) (sched : List Nat)
+    (hnd : cs.Nodup) (hcs : ∀ c, c ∉ cs → S₀.todo c = [])
+    (hlive : ∀ c ∈ cs, (S₀.σ.w.conn? c).isSome = true) (hinv : InvCore S₀.σ.w)
+    (hpc : ∀ c, S₀.σ.pc c = .idle) (hpend : ∀ c, S₀.pend c = [])
+    (hbc : ∀ c, ∀ l ∈ S₀.todo c, NoCount split ∨ BumpCommLine cfg c l)
+    (hrun : runSched cfg split sched S₀ = some S)
+    (hnc : noCorner cfg split sched S₀ = true)
+    (hdone : ∀ c ∈ cs, S.pend c = []) :
+    ∃ cmds : List (Nat × Str), (∀ c, S₀.todo c = linesOf c cmds ++ S.todo c) ∧
+      S.σ = seqRun cfg split cmds S₀.σ := by
+  have hlive' : ∀ c ∈ cs, Live S₀.σ.w c := by
+    intro c hc
+    obtain ⟨cn, hcn⟩ := Option.isSome_iff_exists.mp (hlive c hc)
+    obtain ⟨hm, hid⟩ := Tear.conn?_some hcn
+    exact ⟨cn, hm, hid⟩
+  have h0 := simW_init (cfg := cfg) (split := split) hnd hcs hlive' hinv hpc hpend hbc
+  obtain ⟨cmds, ρ, st, h⟩ := runSched_sim
+    (R := fun S done => ∃ ρ st, SimW cfg split cs S₀.σ S₀.todo S done ρ st)
+    (fun S done c S' hR hcf hm => by
+      obtain ⟨ρ, st, h⟩ := hR
+      exact sim_step hsh h hcf hm)
+    sched S₀ [] S ⟨_, _, h0⟩ hnc hrun
+  exact ⟨cmds, simW_final h hdone⟩
+
+/-- **`general_serialisable`** (counters: way out (a)).  `cs` lists the connections that take part
+    (all others have an empty program).  Initially: every participant is live, the world satisfies
+    `InvCore` (true in every reachable world), every task is between two commands (`pc = idle`,
+    nothing pending).  For EVERY schedule `sched` that can be run (`runSched … = some S`), that never
+    hits the corner (`noCorner`) and after which no command is in progress (`S.pend c = []` for all
+    `c ∈ cs`), there is a list `cmds` of whole commands such that
     (1) for every connection `c` the lines of `c` in `cmds`, in order, followed by what is left of
         `c`'s program, are `c`'s program — `cmds` is an order-respecting merge of the executed
         parts of the programs (of the whole programs if `S.todo c = []`), and
@@ -81,9 +120,9 @@ theorem general_serialisable_atomic (cfg : Cfg) (S₀ S : Sys) (sched : List Nat
         program counters, the same direct-reply stream `dir d` of every connection and the same
         global push sequence `sent` (hence the same queue `queueOf d` of every receiver).
     "One at a time" is `seqRun cfg splitCore` = the sections of each command back to back, without
-    the counter section (way out (a) for the relaxed-atomic command counters); see
-    `seqStep_core_vs_whole` for its relation to `handleLine`.  KILL / DIE / SQUIT lines are
-    allowed. -/
+    the counter section; see `seqStep_core_vs_whole` for its relation to `handleLine`, and
+    `general_serialisable_whole` for the version with the counter sections.  No hypothesis on the
+    program lines: KILL / DIE / SQUIT (and STATS) lines are allowed. -/
 theorem general_serialisable (cfg : Cfg) (cs : List Nat) (S₀ S : Sys) (sched : List Nat)
     (hnd : cs.Nodup) (hcs : ∀ c, c ∉ cs → S₀.todo c = [])
     (hlive : ∀ c ∈ cs, (S₀.σ.w.conn? c).isSome = true) (hinv : InvCore S₀.σ.w)
@@ -92,20 +131,39 @@ theorem general_serialisable (cfg : Cfg) (cs : List Nat) (S₀ S : Sys) (sched :
     (hnc : noCorner cfg splitCore sched S₀ = true)
     (hdone : ∀ c ∈ cs, S.pend c = []) :
     ∃ cmds : List (Nat × Str), (∀ c, S₀.todo c = linesOf c cmds ++ S.todo c) ∧
-      S.σ = seqRun cfg splitCore cmds S₀.σ := by
-  have hlive' : ∀ c ∈ cs, Live S₀.σ.w c := by
-    intro c hc
-    obtain ⟨cn, hcn⟩ := Option.isSome_iff_exists.mp (hlive c hc)
-    obtain ⟨hm, hid⟩ := Tear.conn?_some hcn
-    exact ⟨cn, hm, hid⟩
-  have h0 := simW_init (cfg := cfg) hnd hcs hlive' hinv hpc hpend
-  obtain ⟨cmds, ρ, st, h⟩ := runSched_sim
-    (R := fun S done => ∃ ρ st, SimW cfg cs S₀.σ S₀.todo S done ρ st)
-    (fun S done c S' hR hcf hm => by
-      obtain ⟨ρ, st, h⟩ := hR
-      exact sim_step h hcf hm)
-    sched S₀ [] S ⟨_, _, h0⟩ hnc hrun
-  exact ⟨cmds, simW_final h hdone⟩
+      S.σ = seqRun cfg splitCore cmds S₀.σ :=
+  general_serialisable_split cfg splitCore splitCore_shape cs S₀ S sched hnd hcs hlive hinv hpc
+    hpend (fun _ _ _ => .inl splitCore_noCount) hrun hnc hdone
+
+/-- **`general_serialisable_whole`** (counters: way out (b)): the semantics WITH the counter
+    sections (`splitCommand`: the counter of a split command is bumped when the command starts)
+    against the sequential model proper — `cmds` executed one at a time by `handleLine`
+    (`seqWhole cfg cmds` = `stepSection cfg (.whole c line)` folded over `cmds`).  Same hypotheses
+    as `general_serialisable`, plus: every program line commutes with the counter bumps
+    (`BumpCommLine`; see `bumpCommLine_registration`; it fails for `STATS m` only, and `STATS m`
+    between the start and the serialisation point of another connection's split command is indeed
+    not serialisable).  Conclusion: the same `CState` — world (counters included), program
+    counters, every `dir d`, `sent`. -/
+theorem general_serialisable_whole (cfg : Cfg) (cs : List Nat) (S₀ S : Sys) (sched : List Nat)
+    (hnd : cs.Nodup) (hcs : ∀ c, c ∉ cs → S₀.todo c = [])
+    (hlive : ∀ c ∈ cs, (S₀.σ.w.conn? c).isSome = true) (hinv : InvCore S₀.σ.w)
+    (hpc : ∀ c, S₀.σ.pc c = .idle) (hpend : ∀ c, S₀.pend c = [])
+    (hbc : ∀ c, ∀ l ∈ S₀.todo c, BumpCommLine cfg c l)
+    (hrun : runSched cfg splitCommand sched S₀ = some S)
+    (hnc : noCorner cfg splitCommand sched S₀ = true)
+    (hdone : ∀ c ∈ cs, S.pend c = []) :
+    ∃ cmds : List (Nat × Str), (∀ c, S₀.todo c = linesOf c cmds ++ S.todo c) ∧
+      S.σ = seqWhole cfg cmds S₀.σ := by
+  obtain ⟨cmds, h1, h2⟩ := general_serialisable_split cfg splitCommand splitCommand_shape cs S₀ S
+    sched hnd hcs hlive hinv hpc hpend (fun c l hl => .inr (hbc c l hl)) hrun hnc hdone
+  refine ⟨cmds, h1, ?_⟩
+  rw [h2]
+  apply seqRun_splitCommand_eq_seqWhole cmds S₀.σ hinv hpc
+  intro p hp
+  have hpc' := mem_cmds_of_linesOf hcs h1 p hp
+  obtain ⟨cn, hcn⟩ := Option.isSome_iff_exists.mp (hlive p.1 hpc')
+  obtain ⟨hm, hid⟩ := Tear.conn?_some hcn
+  exact ⟨cn, hm, hid⟩
 
 /-- the same with the equalities spelled out -/
 theorem general_serialisable_spelled_out (cfg : Cfg) (cs : List Nat) (S₀ S : Sys)
@@ -124,6 +182,31 @@ theorem general_serialisable_spelled_out (cfg : Cfg) (cs : List Nat) (S₀ S : S
   obtain ⟨cmds, h1, h2⟩ :=
     general_serialisable cfg cs S₀ S sched hnd hcs hlive hinv hpc hpend hrun hnc hdone
   exact ⟨cmds, h1, by rw [h2], by rw [h2], fun d => by rw [h2], by rw [h2], fun d => by rw [h2]⟩
+
+/-- if moreover every program has been executed to its end (`S.todo c = []`), `cmds` is an
+    order-respecting merge of the WHOLE programs: the lines of `c` in `cmds` are exactly `c`'s
+    program, in order — for both semantics -/
+theorem general_serialisable_complete (cfg : Cfg) (cs : List Nat) (S₀ S : Sys) (sched : List Nat)
+    (hnd : cs.Nodup) (hcs : ∀ c, c ∉ cs → S₀.todo c = [])
+    (hlive : ∀ c ∈ cs, (S₀.σ.w.conn? c).isSome = true) (hinv : InvCore S₀.σ.w)
+    (hpc : ∀ c, S₀.σ.pc c = .idle) (hpend : ∀ c, S₀.pend c = [])
+    (hall : ∀ c, S.todo c = []) (hdone : ∀ c ∈ cs, S.pend c = []) :
+    (runSched cfg splitCore sched S₀ = some S → noCorner cfg splitCore sched S₀ = true →
+      ∃ cmds : List (Nat × Str), (∀ c, linesOf c cmds = S₀.todo c) ∧
+        S.σ = seqRun cfg splitCore cmds S₀.σ) ∧
+    ((∀ c, ∀ l ∈ S₀.todo c, BumpCommLine cfg c l) →
+      runSched cfg splitCommand sched S₀ = some S → noCorner cfg splitCommand sched S₀ = true →
+      ∃ cmds : List (Nat × Str), (∀ c, linesOf c cmds = S₀.todo c) ∧
+        S.σ = seqWhole cfg cmds S₀.σ) := by
+  constructor
+  · intro hrun hnc
+    obtain ⟨cmds, h1, h2⟩ :=
+      general_serialisable cfg cs S₀ S sched hnd hcs hlive hinv hpc hpend hrun hnc hdone
+    exact ⟨cmds, fun c => by rw [h1 c, hall c, List.append_nil], h2⟩
+  · intro hbc hrun hnc
+    obtain ⟨cmds, h1, h2⟩ :=
+      general_serialisable_whole cfg cs S₀ S sched hnd hcs hlive hinv hpc hpend hbc hrun hnc hdone
+    exact ⟨cmds, fun c => by rw [h1 c, hall c, List.append_nil], h2⟩
 
 /-- **the core of a command and the whole command** (the counters, way out (a)): for a live
     connection between two commands, `handleLine` (`.whole c line`) is the core of the command, or
@@ -253,5 +336,136 @@ example : ∀ c ∈ [1, 2, 3], S.σ.dir c = (seqRun Demo.cfg splitCore cmds S₀
 open GDemo in
 set_option maxRecDepth 16384 in
 example : ∀ c ∈ [1, 2, 3], S.σ.pc c = (seqRun Demo.cfg splitCore cmds S₀.σ).pc c := by decide
+
+/-! ### the same race in the semantics WITH the counter sections (`general_serialisable_whole`)
+
+Programs: 1 = `PASS x`, `NICK a`;  2 = `NICK b`, `NICK a`;  3 = `PING y`, `PING x` (lines for which
+`BumpCommLine` is proved).  The unregistered commands start with their counter section. -/
+
+namespace GDemo
+open Demo
+
+def progB : Nat → List Str := fun c =>
+  if c = 1 then [str "PASS x", str "NICK a"]
+  else if c = 2 then [str "NICK b", str "NICK a"]
+  else if c = 3 then [str "PING y", str "PING x"]
+  else []
+
+def SB₀ : Sys := { σ := { w := run cfg evs }, todo := progB }
+
+/-- 1: count(PASS) · 2: count(NICK b) · 3: PING y · 1: prelude · 2: A1(b) · 1: A3(PASS) ·
+    1: count(NICK a) · 1: A1(a) · 2: A2 · 1: A2 · 2: A3 · 1: A3 · 2: NICK a (whole) · 3: PING x -/
+def schedB : List Nat := [1, 2, 3, 1, 2, 1, 1, 1, 2, 1, 2, 1, 2, 3]
+
+def SB : Sys := (runSched cfg splitCommand schedB SB₀).getD SB₀
+
+def cmdsB : List (Nat × Str) :=
+  [(3, str "PING y"), (1, str "PASS x"), (2, str "NICK b"), (1, str "NICK a"),
+   (2, str "NICK a"), (3, str "PING x")]
+
+end GDemo
+
+open GDemo in
+set_option maxRecDepth 16384 in
+theorem gdemoB_run : runSched Demo.cfg splitCommand schedB SB₀ = some SB := by
+  have h : (runSched Demo.cfg splitCommand schedB SB₀).isSome = true := by decide
+  unfold GDemo.SB
+  cases h' : runSched Demo.cfg splitCommand schedB SB₀ with
+  | none => rw [h'] at h; cases h
+  | some s => rfl
+
+open GDemo in
+/-- every program line commutes with the counter bumps -/
+theorem gdemoB_lines : ∀ c, ∀ l ∈ SB₀.todo c, BumpCommLine Demo.cfg c l := by
+  intro c l hl
+  apply bumpCommLine_registration
+  have hl' : l ∈ progB c := hl
+  unfold progB at hl'
+  split at hl'
+  · simp only [List.mem_cons, List.not_mem_nil, or_false] at hl'
+    rcases hl' with rfl | rfl <;> decide
+  · split at hl'
+    · simp only [List.mem_cons, List.not_mem_nil, or_false] at hl'
+      rcases hl' with rfl | rfl <;> decide
+    · split at hl'
+      · simp only [List.mem_cons, List.not_mem_nil, or_false] at hl'
+        rcases hl' with rfl | rfl <;> decide
+      · cases hl'
+
+open GDemo in
+set_option maxRecDepth 16384 in
+/-- all hypotheses of `general_serialisable_whole` hold for this run -/
+example : ∃ cmds : List (Nat × Str), (∀ c, SB₀.todo c = linesOf c cmds ++ SB.todo c) ∧
+    SB.σ = seqWhole Demo.cfg cmds SB₀.σ :=
+  general_serialisable_whole Demo.cfg [1, 2, 3] SB₀ SB schedB (by decide)
+    (by intro c hc; simp at hc; simp [SB₀, progB, hc])
+    (by decide) gdemo_inv (fun _ => rfl) (fun _ => rfl) gdemoB_lines gdemoB_run (by decide)
+    (by decide)
+
+open GDemo in
+set_option maxRecDepth 16384 in
+-- the serialisation, checked: counters (PASS 1, NICK 1 + 3, USER 3, PING 2), queues, replies
+example : SB.σ.w.cmdCounts = (seqWhole Demo.cfg cmdsB SB₀.σ).w.cmdCounts ∧
+    SB.σ.w.cmdCounts.take 6 = [0, 0, 1, 4, 3, 2] ∧
+    SB.σ.sent = (seqWhole Demo.cfg cmdsB SB₀.σ).sent := by decide
+
+open GDemo in
+set_option maxRecDepth 16384 in
+example : ∀ c ∈ [1, 2, 3], SB.σ.dir c = (seqWhole Demo.cfg cmdsB SB₀.σ).dir c := by decide
+
+open GDemo in
+set_option maxRecDepth 16384 in
+example : SB.σ.w.users = (seqWhole Demo.cfg cmdsB SB₀.σ).w.users := by decide +kernel
+
+/-! ### why (b) needs the hypothesis on the lines: `STATS m` sees a counter bumped too early
+
+Connection 3 is the operator `c`, connection 1 has sent `USER`.  1 starts `NICK a` (its counter
+section runs), then 3 executes `STATS m` (which shows the bump) and `ISON a` (which does not show
+`a`), then 1 registers.  No sequential order of the three commands gives connection 3 this
+transcript: `ISON a` before the registration forces `STATS m` before it, too. -/
+
+namespace GDemo
+open Demo
+
+def evsC : List Event :=
+  [.connect 3 ip, .line 3 (str "NICK c"), .line 3 (str "USER c 0 * :C"), .line 3 (str "OPER op pw"),
+   .connect 1 ip, .line 1 (str "USER u 0 * :U")]
+
+def progC : Nat → List Str := fun c =>
+  if c = 1 then [str "NICK a"] else if c = 3 then [str "STATS m", str "ISON a"] else []
+
+def SC₀ : Sys := { σ := { w := run kcfg evsC }, todo := progC }
+
+/-- 1: count(NICK) · 3: STATS m · 3: ISON a · 1: A1 · 1: A2 · 1: A3 -/
+def schedC : List Nat := [1, 3, 3, 1, 1, 1]
+
+def SC : Sys := (runSched kcfg splitCommand schedC SC₀).getD SC₀
+
+end GDemo
+
+open GDemo in
+set_option maxRecDepth 16384 in
+/-- **`counter_not_serialisable`**: the run is complete and corner-free, and the transcript of
+    connection 3 differs from the one of each of the three order-respecting merges -/
+example : (runSched Demo.kcfg splitCommand schedC SC₀).isSome = true ∧
+    noCorner Demo.kcfg splitCommand schedC SC₀ = true ∧ (∀ c ∈ [1, 3], SC.pend c = []) ∧
+    (SC.σ.dir 3).map String.ofList =
+      [":irc.irc 212 c NICK 2", ":irc.irc 212 c USER 2", ":irc.irc 212 c OPER 1",
+       ":irc.irc 212 c STATS 1", ":irc.irc 219 c m :End of STATS report", ":irc.irc 303 c :"] ∧
+    SC.σ.dir 3 ≠ (seqWhole Demo.kcfg
+      [(1, str "NICK a"), (3, str "STATS m"), (3, str "ISON a")] SC₀.σ).dir 3 ∧
+    SC.σ.dir 3 ≠ (seqWhole Demo.kcfg
+      [(3, str "STATS m"), (1, str "NICK a"), (3, str "ISON a")] SC₀.σ).dir 3 ∧
+    SC.σ.dir 3 ≠ (seqWhole Demo.kcfg
+      [(3, str "STATS m"), (3, str "ISON a"), (1, str "NICK a")] SC₀.σ).dir 3 := by decide
+
+open GDemo in
+set_option maxRecDepth 16384 in
+/-- accordingly the hypothesis of `general_serialisable_whole` fails for this line -/
+example : ¬ BumpCommLine Demo.kcfg 3 (str "STATS m") := by
+  intro h
+  have := congrArg Ctx.direct (h 3 { w := SC₀.σ.w })
+  revert this
+  decide
 
 end Irc.C18
